@@ -44,6 +44,14 @@ CHECKS = [
              'fusion histories and forbidden-sector zeros; the charge of each result is compared with the group-law prediction.',
      'note': 'trusted: the independent group law (table of moduli), public accessors; results of factorisations/block are re-based '
              'before later steps'},
+    {'id': 'C03',
+     'technique': 'Hypothesis-generated fusion plans, mismatched operand pairs and block plans checked against the dense model, metamorphic fuse/unfuse relations and a rejection oracle',
+     'text': 'Random nested fusion forests (depth<=3, hard/meta/mixtures) are built and undone; operand pairs with equal/subset/'
+             'superset/overlapping/disjoint sector content are fused identically and contracted/added/traced/vdot-ed over fused '
+             'legs and compared exactly with the unfused dense computation; incompatibly fused pairs must raise YastnError; '
+             'block() identities (norm additivity, steps == once, contraction = sum of parts, unfuse refuses) incl. parts with '
+             'hard-fused, differently populated common legs.',
+     'note': 'trusted: dense model; yastn legs_union/to_numpy(legs=) for the block contraction comparison'},
     {'id': 'C19',
      'technique': 'exhaustive enumeration of the group law against an independent table + Hypothesis search over Leg arguments',
      'text': 'Every fuse()/add_charges() row in the stated charge box (complete for Z2/Z3 factors, |t|<=B for U(1)) for '
